@@ -365,6 +365,15 @@ func tableUser(maxLen int) []kase {
 					src := fmt.Sprintf("(%s f %s 7)\n(f%s)", definer, u.formals(), pre(args))
 					ks = append(ks, kase{Table: "T2-user-" + definer, Src: src, Line: 2, Callee: "f", HasKey: u.key > 0,
 						Class: fmt.Sprintf("user:%s:%s", definer, u.formals()), WantPkg: "user"})
+					// the same callee with an EMPTY body and with a docstring-only body (stubs): argument binding does
+					// not depend on what the body is
+					if allOnes || u.key > 0 {
+						for bi, body := range []string{"", " \"doc only\""} {
+							src := fmt.Sprintf("(%s f %s%s)\n(f%s)", definer, u.formals(), body, pre(args))
+							ks = append(ks, kase{Table: "T2-user-" + definer, Src: src, Line: 2, Callee: "f", HasKey: u.key > 0,
+								Class: fmt.Sprintf("user:%s:%s:%s", definer, u.formals(), []string{"empty-body", "docstring-body"}[bi]), WantPkg: "user"})
+						}
+					}
 				}
 			}
 		}
